@@ -82,3 +82,30 @@ pub mod hint_arith {
         Some(state.round(F26Dot6::from_bits(distance)).to_bits())
     }
 }
+
+/// Round-state opcode handlers on a bare engine, and the general (two axis)
+/// vector projection.
+pub mod hint_round_ops {
+    use super::super::{
+        graphics::{CoordAxis, GraphicsState},
+        F26Dot6, Point,
+    };
+
+    pub use super::super::engine::verif_hooks::round_ops;
+
+    /// `GraphicsState::project((ax, ay), (0, 0))` with the projection vector
+    /// `(bx, by)` taken as is (2.14) and both axes active, i.e. `dot14`.
+    pub fn project_both(ax: i32, ay: i32, bx: i32, by: i32) -> i32 {
+        let state = GraphicsState {
+            proj_vector: Point::new(bx, by),
+            proj_axis: CoordAxis::Both,
+            ..Default::default()
+        };
+        state
+            .project(
+                Point::new(F26Dot6::from_bits(ax), F26Dot6::from_bits(ay)),
+                Point::default(),
+            )
+            .to_bits()
+    }
+}
